@@ -584,3 +584,45 @@ func TestF62_UserAgentAndRefererConfiguredAsHeadersArrive(t *testing.T) {
 		t.Errorf("nothing configured: server saw %q, want \"fiber|\"", got)
 	}
 }
+
+// F63 (C18): when a response hook fails, core.execute called resp.Close(), which also resets and pools the caller's
+// Request although Send returned (nil, err) and the caller still holds it: a retry with the same request sends the
+// defaults instead of what was configured.
+func TestF63_FailedResponseHookLeavesTheRequestConfigured(t *testing.T) {
+	app := fiber.New()
+	app.Get("/", func(c fiber.Ctx) error { return c.SendString(c.Get("X-Tenant") + "|" + c.Query("q")) })
+	ln, err := net.Listen("tcp", "127.0.0.1:0")
+	if err != nil {
+		t.Skip("no loopback listener")
+	}
+	go func() { _ = app.Listener(ln, fiber.ListenConfig{DisableStartupMessage: true}) }()
+	defer func() { _ = app.Shutdown() }()
+	url := "http://" + ln.Addr().String() + "/"
+	cl := client.New()
+	fail := true
+	cl.AddResponseHook(func(_ *client.Client, _ *client.Response, _ *client.Request) error {
+		if fail {
+			return fiber.ErrTeapot
+		}
+		return nil
+	})
+	req := cl.R().SetHeader("X-Tenant", "acme").SetParam("q", "1")
+	if _, err := req.Get(url); err == nil {
+		t.Fatal("the failing hook must fail the request")
+	}
+	if got := req.Header("X-Tenant"); len(got) != 1 || got[0] != "acme" {
+		t.Errorf("after the failed Send the request's header X-Tenant is %v, want [acme]", got)
+	}
+	if req.Client() != cl {
+		t.Errorf("after the failed Send the request no longer belongs to its client")
+	}
+	fail = false
+	resp, err := req.Get(url)
+	if err != nil {
+		t.Fatal(err)
+	}
+	defer resp.Close()
+	if got := string(resp.Body()); got != "acme|1" {
+		t.Errorf("retry with the same request: server saw %q, want \"acme|1\"", got)
+	}
+}
